@@ -524,4 +524,127 @@ theorem bag_distinct_spec (b : Bag Nat) :
 
 example : distinctB [[3, 1, 3], [], [1, 2]] = some [3, 1, 2] := by decide
 
+/-! ## join, starmap, pluck, max, disk shuffle -/
+
+/-- `join`: the pairs `(y, x)` with matching keys, `x` running through the bag in order -/
+theorem bag_join_den (onSelf : α → Nat) (onOther : β → Nat) (other : List β) (b : Bag α) :
+    den (joinB onSelf onOther other b) =
+      (den b).flatMap fun x => (other.filter fun y => onOther y == onSelf x).map fun y => (y, x) := by
+  simp only [den, joinB]
+  induction b with
+  | nil => rfl
+  | cons p ps ih => simp only [List.map_cons, List.flatten_cons, List.flatMap_append, ih]
+
+theorem bag_starmap_den {γ : Type} (f : α → β → γ) (b : Bag (α × β)) :
+    den (starmapB f b) = (den b).map fun xy => f xy.1 xy.2 := bag_map_den _ b
+
+theorem bag_pluck_den (get : α → β) (b : Bag α) : den (pluckB get b) = (den b).map get := bag_map_den _ b
+
+theorem foldl_max_comm (l : List Int) (a c : Int) : l.foldl max (max a c) = max a (l.foldl max c) := by
+  induction l generalizing c with
+  | nil => rfl
+  | cons w l ih => simp only [List.foldl_cons]; rw [← ih]; congr 1; omega
+
+theorem pyReduce_max_cons (v : Int) (vs : List Int) (m : Int) (h : pyReduce max vs = some m) :
+    pyReduce max (v :: vs) = some (max v m) := by
+  cases vs with
+  | nil => simp [pyReduce] at h
+  | cons w ws =>
+    simp only [pyReduce, Option.some.injEq, List.foldl_cons] at h ⊢
+    rw [foldl_max_comm, h]
+
+theorem pyReduce_max_append (q₁ q₂ : List Int) (m₁ m₂ : Int) (h₁ : pyReduce max q₁ = some m₁)
+    (h₂ : pyReduce max q₂ = some m₂) : pyReduce max (q₁ ++ q₂) = some (max m₁ m₂) := by
+  cases q₁ with
+  | nil => simp [pyReduce] at h₁
+  | cons y ys =>
+    cases q₂ with
+    | nil => simp [pyReduce] at h₂
+    | cons z zs =>
+      simp only [pyReduce, Option.some.injEq, List.cons_append, List.foldl_append, List.foldl_cons] at h₁ h₂ ⊢
+      rw [foldl_max_comm, h₁, h₂]
+
+theorem pyReduce_ne_nil (q : List Int) (hq : q ≠ []) : ∃ m, pyReduce max q = some m := by
+  cases q with
+  | nil => exact absurd rfl hq
+  | cons y ys => exact ⟨_, rfl⟩
+
+/-- **`max`** of a non-empty bag is `max(seq)` — any partitioning with empty partitions, any
+    `split_every ≥ 2` (for an empty bag the inner result is `none`: ValueError like `max([])`) -/
+theorem bag_max_eq (se : Nat) (hse : 2 ≤ se) (b : Bag Int) (hb : den b ≠ []) :
+    maxB se b = some (pyReduce max (den b)) := by
+  have hsome : (maxB se b).isSome := reductionIx_isSome _ _ se hse b
+  obtain ⟨r, hr⟩ := Option.isSome_iff_exists.mp hsome
+  have hgen := reductionIx_inv_gen (fun (q : List Int) (r : Option Int) => q ≠ [] ∧ r = pyReduce max q) _ _ b ?_ ?_ se r hr
+  · rcases hgen with ⟨_, _, hnil⟩ | ⟨_, hr'⟩
+    · exact absurd hnil hb
+    · rw [hr, hr']; rfl
+  · intro i p hmem hor
+    refine ⟨?_, rfl⟩
+    rcases hor with h1 | h
+    · intro hp
+      subst hp
+      cases b with
+      | nil => simp at h1
+      | cons q qs =>
+        cases qs with
+        | nil =>
+          have : q = [] := by simpa using hmem
+          subst this
+          simp [den] at hb
+        | cons _ _ => simp at h1
+    · exact h
+  · intro d i qs rs hrs hall
+    show qs.flatten ≠ [] ∧ optReduce max rs = pyReduce max qs.flatten
+    have key : ∃ vs m, rs.mapM id = some vs ∧ pyReduce max vs = some m ∧ pyReduce max qs.flatten = some m ∧
+        qs.flatten ≠ [] := by
+      induction hall with
+      | nil => exact absurd rfl hrs
+      | @cons q r qs' rs' hqr hrest ih =>
+        obtain ⟨hq, rfl⟩ := hqr
+        obtain ⟨m₁, hm₁⟩ := pyReduce_ne_nil q hq
+        cases hrest with
+        | nil => exact ⟨[m₁], m₁, by simp [List.mapM_cons, hm₁], rfl, by simpa using hm₁, by simpa using hq⟩
+        | cons hqr' hrest' =>
+          obtain ⟨vs, m, hv, hvm, hfm, _⟩ := ih (by simp)
+          refine ⟨m₁ :: vs, max m₁ m, by simp [List.mapM_cons, hm₁, hv], pyReduce_max_cons m₁ vs m hvm, ?_, by simp [hq]⟩
+          rw [List.flatten_cons]
+          exact pyReduce_max_append q _ m₁ m hm₁ hfm
+    obtain ⟨vs, m, hv, hvm, hfm, hne⟩ := key
+    exact ⟨hne, by simp only [optReduce, hv, hvm, hfm]⟩
+
+example : maxB 2 [[], [3, -1], [], [7], [2]] = some (some 7) := by decide
+example : maxB 2 [[], []] = some none := by decide
+
+/-- **`groupby` with the disk shuffle**: a key lives in output partition `hash κ % npartitions` only, and its
+    group holds exactly the elements with that key -/
+theorem groupby_disk_spec (hash : Nat → Nat) (g : α → Nat) (nout : Nat) (parts : List (List α))
+    (t : Nat) (part : List (Nat × List α)) (κ : Nat) (grp : List α)
+    (hpart : (groupbyDisk hash g nout parts)[t]? = some part) (hmem : (κ, grp) ∈ part) :
+    t = hash κ % nout ∧ grp = parts.flatten.filter (fun x => g x == κ) := by
+  simp only [groupbyDisk, List.getElem?_map] at hpart
+  cases ht : (List.range nout)[t]? with
+  | none => simp [ht] at hpart
+  | some t' =>
+    have htt : t' = t ∧ t < nout := by
+      have hlt : t < (List.range nout).length := by
+        rcases Nat.lt_or_ge t (List.range nout).length with h | h
+        · exact h
+        · rw [List.getElem?_eq_none h] at ht; cases ht
+      rw [List.getElem?_eq_getElem hlt, List.getElem_range] at ht
+      exact ⟨(Option.some.inj ht).symm, by simpa using hlt⟩
+    obtain ⟨rfl, _⟩ := htt
+    simp only [ht, Option.map_some, Option.some.injEq] at hpart
+    subst hpart
+    obtain ⟨⟨x, hx, hgx⟩, hgrp⟩ := (mem_groupByKeyOrdered g _ κ grp).mp hmem
+    obtain ⟨_, hx2⟩ := List.mem_filter.mp hx
+    refine ⟨by rw [← hgx]; exact (beq_iff_eq.mp hx2).symm, ?_⟩
+    rw [hgrp, List.filter_filter]
+    apply List.filter_congr
+    intro y _
+    by_cases hy : g y = κ
+    · have : hash κ % nout = t' := by rw [← hgx]; exact beq_iff_eq.mp hx2
+      simp [hy, this]
+    · simp [hy]
+
 end Dask.C48
